@@ -20,6 +20,7 @@ type PoolCfg struct {
 	ManyParams bool // add two routes with more than 256 parameters before a fork (counters narrower than the 16-bit limit)
 	Ladder    bool // add static, {param} and *{catch-all} alternatives at three consecutive levels (deep backtracking)
 	HostHeavy bool // two fresh patterns in three carry a hostname, and mutations keep the host more often
+	Siblings  bool // add eight one-letter static siblings below one node (registered in whatever order the history draws: a new last edge, a new first edge, one in the middle)
 	Odd       bool // static segments also use bytes that sort before '*', between '*' and '{', and after '{'; wildcard names may carry '.', '-' or extend one another
 }
 
@@ -269,6 +270,16 @@ func GenPool(s sim.Source, cfg PoolCfg) []*model.Pattern {
 		// siblings on the far sides of the wildcard markers, and wildcard children of the wide node with routes below them
 		// (... and, HighByteSiblings, edges starting with bytes >= 0x80, two routes behind each of them)
 		for _, raw := range append([]string{"/f/!x", "/f/$x", "/f/|x", "/f/~x", "/f/{p}", "/f/*{q}", "/f/{p}/t", "/f/*{q}/t"}, HighByteSiblings...) {
+			if p, err := model.Parse(raw); err == nil && !seen[raw] {
+				seen[raw] = true
+				out = append(out, p)
+			}
+		}
+	}
+	if cfg.Siblings && len(out) > 0 {
+		// a node that keeps gaining and losing edges at either end and in the middle of its sorted edge list, in every
+		// version and lineage of the tree a history produces (aborted transactions, snapshots, later direct writes)
+		for _, raw := range []string{"/s/k", "/s/l", "/s/m", "/s/n/{id}", "/s/o", "/s/p", "/s/q/{id}", "/s/r"} {
 			if p, err := model.Parse(raw); err == nil && !seen[raw] {
 				seen[raw] = true
 				out = append(out, p)
